@@ -215,10 +215,20 @@ func without(a, b []string) []string {
 //-------------------------------------------------------------------
 
 type qgen struct {
-	t     *rapid.T
-	db    *dbT
-	fresh int
-	only  map[string]bool // if set, restrict to these tables (no views)
+	t       *rapid.T
+	db      *dbT
+	fresh   int
+	only    map[string]bool // if set, restrict to these tables (no views)
+	present map[string][]lit
+	lead    []string
+}
+
+func (g *qgen) exprGen(cols []colT) *exprGen {
+	if g.present == nil {
+		g.present = g.db.present()
+		g.lead = g.db.leadCols()
+	}
+	return &exprGen{t: g.t, cols: cols, present: g.present, lead: g.lead}
 }
 
 func (g *qgen) newName(prefix string) string {
@@ -253,7 +263,7 @@ type opW struct {
 	w  int
 }
 
-var opWeights = []opW{{"leaf", 4}, {"where", 20}, {"project", 8}, {"remove", 5}, {"rename", 8},
+var opWeights = []opW{{"leaf", 4}, {"groupOverIn", 7}, {"where", 20}, {"project", 8}, {"remove", 5}, {"rename", 8},
 	{"extend", 11}, {"summarize", 11}, {"join", 13}, {"leftjoin", 9}, {"semijoin", 3},
 	{"times", 4}, {"union", 7}, {"intersect", 3}, {"minus", 4}}
 
@@ -281,6 +291,8 @@ func (g *qgen) gen(depth int) *qnode {
 	switch op {
 	case "leaf":
 		return g.leaf()
+	case "groupOverIn":
+		return g.groupOverIn()
 	case "where":
 		return g.where(g.gen(depth - 1))
 	case "project":
@@ -303,7 +315,7 @@ func (g *qgen) gen(depth int) *qnode {
 }
 
 func (g *qgen) where(src *qnode) *qnode {
-	eg := &exprGen{t: g.t, cols: src.out}
+	eg := g.exprGen(src.out)
 	return &qnode{op: "where", src: src, expr: eg.boolean(2), out: src.out}
 }
 
@@ -383,7 +395,7 @@ func (g *qgen) extend(src *qnode) *qnode {
 	avail := append([]colT(nil), src.out...)
 	n := rng(g.t, "nextend", 1, 3)
 	for i := 0; i < n; i++ {
-		eg := &exprGen{t: g.t, cols: avail}
+		eg := g.exprGen(avail)
 		e := eg.value(tMix, true)
 		name := g.newName("x")
 		// sometimes shadow a pool column that the source does not have
@@ -875,4 +887,112 @@ func wholeRowInside(q *qnode, root bool) bool {
 		return true
 	}
 	return wholeRowInside(q.src, false) || wholeRowInside(q.src2, false)
+}
+
+// groupOverIn builds the shape "table where <leading column of a composite
+// index> in (2-3 stored values) [and ...]" below a project of / summarize by
+// the trailing index columns (grouping that an index could only deliver if the
+// leading column were single-valued).
+func (g *qgen) groupOverIn() *qnode {
+	type cand struct {
+		tb *tableT
+		ix []string
+	}
+	var cands []cand
+	for _, tb := range g.db.tables {
+		if g.only != nil && !g.only[tb.name] {
+			continue
+		}
+		for _, ix := range tb.allIndexes() {
+			if len(ix) > 1 {
+				cands = append(cands, cand{tb, ix})
+			}
+		}
+	}
+	if len(cands) == 0 {
+		return g.where(g.leaf())
+	}
+	c := pickOf(g.t, "goi", cands)
+	src := tableNode(c.tb)
+	eg := g.exprGen(src.out)
+	lead, _ := src.outCol(c.ix[0])
+	st := eg.stored(lead.name, rng(g.t, "goi_n", 2, 3))
+	if len(st) < 2 {
+		return g.where(src)
+	}
+	args := []*exprT{colExpr(lead)}
+	for _, l := range st {
+		args = append(args, constExpr(l))
+	}
+	var e *exprT = &exprT{op: "in", args: args, typ: tBool}
+	if chance(g.t, "goi_and", 30) {
+		e = &exprT{op: "and", typ: tBool, args: []*exprT{e, eg.boolean(0)}}
+	}
+	w := &qnode{op: "where", src: src, expr: e, out: src.out}
+	rest := c.ix[1:]
+	by := rest[:rng(g.t, "goi_by", 1, len(rest))]
+	if chance(g.t, "goi_proj", 50) {
+		q := &qnode{op: "project", src: w, cols: append([]string(nil), by...)}
+		for _, n := range by {
+			oc, _ := w.outCol(n)
+			q.out = append(q.out, oc)
+		}
+		return q
+	}
+	q := &qnode{op: "summarize", src: w, cols: append([]string(nil), by...)}
+	q.scols, q.sops, q.sons = []string{""}, []string{"count"}, []string{""}
+	if contains(by, "count") || contains(w.outNames(), "count") {
+		q.scols[0] = g.newName("c")
+	}
+	var nums []string
+	for _, oc := range w.out {
+		if oc.typ == tNum && !contains(by, oc.name) {
+			nums = append(nums, oc.name)
+		}
+	}
+	if len(nums) > 0 && chance(g.t, "goi_total", 50) {
+		on := pickOf(g.t, "goi_on", nums)
+		q.scols = append(q.scols, g.newName("c"))
+		q.sops = append(q.sops, "total")
+		q.sons = append(q.sons, on)
+	}
+	q.setSummarizeOut()
+	return q
+}
+
+// wholeRowUnderWhere: a whole-record summarize (min/max of a key on a table)
+// below a where that refers to a column of the record (directly, or possibly
+// through an extend/rename/join-like operator in between): the where is moved
+// below the summarize (known finding summarize-wholerow-inside, part 3).
+func wholeRowUnderWhere(q *qnode, refs map[string]bool, relay bool) bool {
+	if q == nil {
+		return false
+	}
+	switch q.op {
+	case "view":
+		return wholeRowUnderWhere(q.viewOf, refs, relay)
+	case "where":
+		r2 := map[string]bool{}
+		for k := range refs {
+			r2[k] = true
+		}
+		q.expr.columns(r2)
+		refs = r2
+	case "rename", "extend":
+		relay = relay || refs != nil
+	case "join", "leftjoin", "semijoin", "intersect", "minus":
+		if refs == nil {
+			refs = map[string]bool{}
+		}
+		relay = true
+	case "summarize":
+		if refs != nil && q.whole {
+			for _, n := range q.src.outNames() {
+				if relay || refs[n] {
+					return true
+				}
+			}
+		}
+	}
+	return wholeRowUnderWhere(q.src, refs, relay) || wholeRowUnderWhere(q.src2, refs, relay)
 }
